@@ -84,6 +84,16 @@ CHECKS = {
     text="Dynamic: 216 call recipes cover every public function (inventory from the modules' defs; gaps are reported) on a real-valued and an integer-valued world in C-ordered float64, same-objects-again, Fortran-ordered, strided-view and int64 representations; argument digests and result classes form a history judged event by event. Static: ~4.8k facts (every Name load, every attribute chain rooted at a module-level binding, every call to a python function of the package) are checked by TLC against scopes/module bindings/builtins, dir() of the real imported objects and inspect signatures, covering code no input reaches.",
     note="flow-insensitive name resolution; attribute chains followed through modules/classes only; AST extractor trusted; known findings D13 (legacy arity) and D14 (plt) listed in known_findings.json",
     ref="5/C20"),
+ "C13": dict(
+    technique="TLC model checking of the worst-knee running-minimum machine against the declarative RunMin and of the corner filter/selector laws (negative instances: strict comparison, stale minimum) + TLC-generated (curve, knee list, threshold incl. every occurring IoU) behaviours replayed into the three filters + TLC trace validation on random float curves with bit-exact IoU classes",
+    text="Filters.tla defines RunMin, the WorstFilter step machine, CornerIoU (exact rational from Geometry.tla) and the class rule below/atleast/end; TLC checks machine = RunMin, idempotence, partition and order preservation on every curve x knee subset (n<=5 quick, 6 thorough) and emits 37k behaviours whose thresholds include every IoU value of the curve (exact ties); each is replayed (twice, for idempotence) into filter_worst_knees / filter_corner_knees / select_corner_knees; random float curves are judged by Trace_Filters with classes from knee_ranking.rect_overlap compared bit-exactly with harvested thresholds.",
+    note="small integer domains with t = p/q decided identically in binary64; T relative to the library's rect_overlap (C17 owns it)",
+    ref="5/C13"),
+ "C14": dict(
+    technique="TLC evaluates the documented EvenPoints definition (exact rational width/height tests, ceil, floor increments, RunMin tail) on dyadic grids and emits expected index arrays for both variants and both extremes settings; replay into add_points_even / add_points_even_knees; TLC trace validation on random float curves with ambiguity classes",
+    text="Filters.tla's EvenReduced/EvenMarkers are the property; Gen_EvenPoints enumerates curves on the n-1=8 (thorough 16) grid x reductions x knee subsets x (tx,ty) in {1/16,1/8,1/4}x{1/8,1/4,1/2} x extremes and the harness replays 380k calls demanding index-array equality, validity and strict increase; random float curves are judged by Trace_Filters with near-threshold cases classed ambiguous.",
+    note="dyadic grids make ceil(pdx/(2tx)) exact; height profiles are a fixed list (stated in the evidence rule); empty knee sets outside the domain",
+    ref="5/C14"),
 }
 
 PENDING = {}
